@@ -152,6 +152,20 @@ def composite_units() -> List[Unit]:
     ])
     out.append(Unit("composite:imports", L.Schema("t_imp", [user], imports=[(shared, None), (other, "oth")]), [user],
                     tags=("composite", "imports", "traditional")))
+    # --- same-named nested definitions in different messages, used in arrays of the same capacity (flattened names must differ)
+    mode_a = L.Enum("Mode", 3, [("M_OFF", 0), ("M_ON", 5)])
+    lim_a = L.Message("Limits", [L.Field("lo", 1, L.Int(5))])
+    motor = L.Message("Motor", [L.Field("history", 1, L.Array(mode_a, 2)), L.Field("lims", 2, L.Array(lim_a, 2)), L.Field("cur", 3, mode_a)],
+                      nested=[mode_a, lim_a])
+    mode_b = L.Enum("Mode", 6, [("R_OFF", 0), ("R_FAST", 41)])
+    lim_b = L.Message("Limits", [L.Field("lo", 1, L.Int(11)), L.Field("hi", 2, L.Uint(9))])
+    radio = L.Message("Radio", [L.Field("history", 1, L.Array(mode_b, 2)), L.Field("lims", 2, L.Array(lim_b, 2)), L.Field("cur", 3, mode_b)],
+                      nested=[mode_b, lim_b])
+    out.append(Unit("composite:same-named-nested", L.Schema("t_same", [motor, radio]), [motor, radio], tags=("composite", "traditional")))
+    # --- long field names (the C JSON key is written by one formatted call)
+    ln = L.Message("LongNames", [L.Field("a_field_name_that_is_forty_characters_xx", 1, L.Uint(9)),
+                                 L.Field("b" * 64, 2, L.Int(7)), L.Field("brief", 3, L.Bool())])
+    out.append(Unit("composite:long-names", L.Schema("t_long", [ln]), [ln], tags=("composite", "traditional")))
     # --- enum whose first member is not zero: Python's field default is the first member (known finding D14)
     nz = L.Enum("Nz", 3, [("NZ_A", 1), ("NZ_B", 2), ("NZ_C", 4)])
     dm = L.Message("D", [L.Field("h", 1, L.Uint(2)), L.Field("e", 2, nz), L.Field("es", 3, L.Array(nz, 2)),
